@@ -296,7 +296,11 @@ impl LuaTableField {
                             }
                         }
 
-                        return Some(LuaIndexKey::Expr(LuaExpr::cast(node).unwrap()));
+                        match LuaExpr::cast(node) {
+                            Some(expr) => return Some(LuaIndexKey::Expr(expr)),
+                            // a comment node between `[` and the key is not the key
+                            None => continue,
+                        }
                     }
                     _ => return None,
                 }
